@@ -61,12 +61,6 @@ end module vf_mod
 """
 
 
-def c_name(f):
-    return PREFIX + un_camel(f["name"]) + (f.get("suffix") or "")
-
-
-def f_name(f):
-    return (un_camel(f["name"]) + (f.get("suffix") or "")).lower()
 
 
 # ---------------------------------------------------------------------------
@@ -84,17 +78,46 @@ def obs_c(T, slot, expr):
     raise ValueError(T)
 
 
+def c_scope(lib, f):
+    """{C_name_scope}: class name for members (documented)."""
+    return (f["cls"] + "_") if f.get("cls") and f["kind"] in ("ctor", "method", "smethod") else ""
+
+
+def c_fname(lib, f):
+    base = {"ctor": "ctor", "dtor": "dtor"}.get(f["kind"], un_camel(f["name"]))
+    suf = f.get("suffix")
+    if suf is None and f["kind"] == "ctor" and f.get("noverload", 1) > 1:
+        suf = "_%d" % f["overload_index"]          # documented default: sequence number
+    return PREFIX + c_scope(lib, f) + base + (suf or "")
+
+
 def c_driver(lib):
     out = ["#include <stdio.h>", "#include <string.h>", "#include <stdbool.h>", "#include <stdint.h>", "#include <stddef.h>",
-           '#include "wrap%s.h"' % lib["name"], '#include "vf_support.h"', "int main(void)", "{"]
-    for site, (f, k) in enumerate(xlib.call_plan(lib)):
-        call = f["calls"][k]
+           '#include "wrap%s.h"' % lib["name"]]
+    for c in lib.get("classes", []):
+        out.append('#include "wrap%s.h"' % c["name"])
+        out.append("void vf_oo_%s(int slot, void *p);" % c["name"])
+    out += ['#include "vf_support.h"', "int main(void)", "{"]
+    nobj = sum(1 for op in xlib.plan(lib) if op["kind"] in ("new", "make"))
+    for c in lib.get("classes", []):
+        out.append("    %s%s obj[%d];" % (PREFIX, c["name"], max(1, nobj)))
+    for site, op in enumerate(xlib.plan(lib)):
+        out.append("    vf_callsite(%d);" % site)
+        if op["kind"] == "del":
+            out.append("    %s%s_dtor(&obj[%d]);" % (PREFIX, op["cls"], op["obj"]))
+            continue
+        f = op["f"]
+        call = f["calls"][op["k"]]
         ins, outs = call["inputs"], call["outputs"]
         decl, args, post = [], [], []
+        if op["kind"] == "mcall":
+            args.append("&obj[%d]" % op["obj"])
         for idx, p in enumerate(f["params"]):
             row, T, nm = p["row"], p["T"], p["name"]
             v = "v%d" % idx
-            if p.get("implied_of"):
+            if row in ("K1ptr", "K1ref"):
+                args.append("&obj[%d]" % op["objs"][nm])
+            elif p.get("implied_of"):
                 args.append("%d" % len(ins[p["implied_of"]]))     # the C API shows implied arguments
             elif p.get("size_for") or row in ("N1", "B1", "S1c"):
                 args.append(xlib.c_lit(T, ins[nm]))
@@ -132,12 +155,16 @@ def c_driver(lib):
                 decl.append("%s %s[8] = {0};" % (T, v))
                 args.append(v)
                 post.append(obs_arr_c(T, idx, v, len(outs[nm])))
-        callx = "%s(%s)" % (c_name(f), ", ".join(args))
+        if op["kind"] in ("new", "make"):
+            args.append("&obj[%d]" % op["obj"])        # the capsule the wrapper fills in
+        callx = "%s(%s)" % (c_fname(lib, f), ", ".join(args))
         r = f["ret"]
-        out.append("    vf_callsite(%d);" % site)
         out.append("    {")
         out += ["        " + d for d in decl]
-        if r is None:
+        if op["kind"] == "make":
+            out.append("        %s;" % callx)
+            out.append("        vf_oo_%s(-1, obj[%d].addr);" % (op["cls"], op["obj"]))
+        elif r is None:
             out.append("        %s;" % callx)
         elif r["row"] in ("N", "B", "C"):
             out.append("        %s rv = %s;" % (r["T"], callx))
@@ -147,7 +174,7 @@ def c_driver(lib):
             out.append("        vf_os(-1, rv, -1);")
         out += ["        " + x for x in post]
         out.append("    }")
-    out += ["    return 0;", "}"]
+    out += ["    vf_live_report();", "    return 0;", "}"]
     return "\n".join(out) + "\n"
 
 
@@ -220,10 +247,24 @@ def obs_arr_f(T, slot, v):
     return "call vf_oai(%d, size(%s, kind=C_INT), int(%s, C_LONG_LONG))" % (slot, v, v)
 
 
+def f_procname(lib, f):
+    suf = f.get("suffix")
+    return (un_camel(f["name"]) + (suf or "")).lower()
+
+
 def f_driver(lib):
     body = []
-    for site, (f, k) in enumerate(xlib.call_plan(lib)):
-        call = f["calls"][k]
+    nobj = sum(1 for op in xlib.plan(lib) if op["kind"] in ("new", "make"))
+    head_decl = []
+    for c in lib.get("classes", []):
+        head_decl.append("  type(%s) :: obj(%d)" % (c["name"].lower(), max(1, nobj)))
+    for site, op in enumerate(xlib.plan(lib)):
+        body.append("  call vf_callsite(%d)" % site)
+        if op["kind"] == "del":
+            body.append("  call obj(%d)%%dtor()" % (op["obj"] + 1))
+            continue
+        f = op["f"]
+        call = f["calls"][op["k"]]
         ins, outs = call["inputs"], call["outputs"]
         decl, pre, args, post = [], [], [], []
         for idx, p in enumerate(f["params"]):
@@ -231,7 +272,9 @@ def f_driver(lib):
             v = "v%d" % idx
             if p.get("implied_of"):
                 continue                      # implied arguments are not part of the Fortran API
-            if p.get("size_for") or row in ("N1", "N2in", "B1"):
+            if row in ("K1ptr", "K1ref"):
+                args.append("obj(%d)" % (op["objs"][nm] + 1))
+            elif p.get("size_for") or row in ("N1", "N2in", "B1"):
                 args.append(f_lit(T, ins[nm]))
             elif row == "S1c":
                 args.append(f_lit("char", ins[nm]))
@@ -271,10 +314,24 @@ def f_driver(lib):
                 args.append(v)
                 post.append(obs_arr_f(T, idx, v))
         r = f["ret"]
-        callx = "%s(%s)" % (f_name(f), ", ".join(args))
-        body.append("  call vf_callsite(%d)" % site)
+        if op["kind"] == "new":
+            # documented: generic interface named after the derived type
+            callx = "%s(%s)" % (op["cls"].lower(), ", ".join(args))
+            stmt = "obj(%d) = %s" % (op["obj"] + 1, callx)
+        elif op["kind"] == "make":
+            stmt = "obj(%d) = %s(%s)" % (op["obj"] + 1, f_procname(lib, f), ", ".join(args))
+            post.insert(0, "call vf_oo_%s(-1_C_INT, obj(%d)%%get_instance())" % (op["cls"].lower(), op["obj"] + 1))
+        else:
+            if op["kind"] == "mcall":
+                target = "obj(%d)%%%s" % (op["obj"] + 1, f_procname(lib, f))
+            elif f["kind"] == "smethod":
+                target = "obj(1)%%%s" % f_procname(lib, f)        # nopass type-bound procedure
+            else:
+                target = f_procname(lib, f)
+            callx = "%s(%s)" % (target, ", ".join(args))
+            stmt = ("rv = " + callx) if r is not None else ("call " + callx)
         body.append("  block")
-        if r is not None:
+        if r is not None and op["kind"] not in ("new", "make"):
             if r["row"] in ("N", "B", "C"):
                 decl.append("%s :: rv" % f_decl(r["T"]))
                 post.insert(0, obs_f(r["T"], -1, "rv"))
@@ -286,10 +343,17 @@ def f_driver(lib):
                 post.insert(0, "call vf_os(-1, rv, len(rv, kind=C_INT))")
         body += ["    " + d for d in decl]
         body += ["    " + x for x in pre]
-        body.append("    rv = " + callx if r is not None else "    call " + callx)
+        body.append("    " + stmt)
         body += ["    " + x for x in post]
         body.append("  end block")
+    body.append("  call vf_live_report()")
     src = ["subroutine vf_run()", "  use iso_c_binding", "  use vf_mod", "  use %s_mod" % lib["name"].lower(), "  implicit none"]
+    src += ["  interface", "    subroutine vf_live_report() bind(C, name=\"vf_live_report\")", "    end subroutine"]
+    for c in lib.get("classes", []):
+        src += ["    subroutine vf_oo_%s(slot, p) bind(C, name=\"vf_oo_%s\")" % (c["name"].lower(), c["name"]),
+                "      import", "      integer(C_INT), value :: slot", "      type(C_PTR), value :: p", "    end subroutine"]
+    src += ["  end interface"]
+    src += head_decl
     src += body
     src += ["end subroutine vf_run", "program vf_main", "  call vf_run()", "end program vf_main"]
     # free-form line length: wrap long lines defensively
